@@ -524,7 +524,7 @@ Definition process_attribute (r : range) (qname_len eq_len : N) (prefix local va
         else if negb is_xml_ns_uri then
           let! d := push_ns (Some (SIn local)) value (c_doc c) in Ok (set_doc c d)
         else Ok c
-  else if bytes_eqb lb xmlns_str then
+  else if (slice_len prefix =? 0) && bytes_eqb lb xmlns_str then
     if bytes_eqb vb ns_xml_uri then err_from text (fst r) UnexpectedXmlUri
     else if bytes_eqb vb ns_xmlns_uri then err_from text (fst r) UnexpectedXmlnsUri
     else
